@@ -9,7 +9,7 @@
    `dist_inj c` says distinct peers have distinct distances to the target (SHA-256 keys). *)
 From Coq Require Import List NArith Bool.
 From V.gen Require Consts.
-From V.C15 Require Import Model Proofs.
+From V.C15 Require Import Model Proofs Engine EngineProofs Dist.
 Import ListNotations.
 Open Scope N_scope.
 
@@ -415,6 +415,278 @@ Theorem C15_default_config :
   1 <= V.gen.Consts.PARALLELISM_FACTOR /\ 1 <= V.gen.Consts.REPLICATION_FACTOR.
 Proof. exact default_factors. Qed.
 Print Assumptions C15_default_config.
+
+(* ---- the distance function ---- *)
+
+(* dist_inj holds for the real metric: XOR distances (Distance(a ^ b) on U256; C14_distance_compare_u256
+   ties U256 to N.lxor) of distinct keys to the same target are distinct. What remains assumed is only that
+   the SHA-256 keys of distinct peers are distinct. *)
+Theorem C15_xor_dist_inj :
+  forall c key target,
+  (forall p q, key p = key q -> p = q) -> dist_inj (with_dist c (xor_dist key target)).
+Proof. exact xor_dist_inj. Qed.
+Print Assumptions C15_xor_dist_inj.
+
+(* The lookup depends on the distance function only through the order it induces on the peers of the
+   case: two distance functions that compare the peers of a universe U alike give, for every history over
+   U, the same actions event by event (sends, partial results, terminal results with their lists) and
+   states equal up to the distance labels. Hence the RANKS the harness feeds the model stand for the
+   real 256-bit XOR distances, and every theorem of this file transfers between the two. *)
+Theorem C15_rank_invariance :
+  forall U d1 d2 c seeds es,
+  (forall p q, In p U -> In q U -> (d1 p <? d1 q) = (d2 p <? d2 q) /\ (d1 p =? d1 q) = (d2 p =? d2 q)) ->
+  (forall q, In q seeds -> In q U) -> (forall y, In y (c_kprov c) -> In (fst y) U) ->
+  Forall (ev_inU U) es ->
+  snd (run (with_dist c d1) (init (with_dist c d1) seeds) es) =
+  snd (run (with_dist c d2) (init (with_dist c d2) seeds) es) /\
+  srel U d1 d2 (fst (run (with_dist c d1) (init (with_dist c d1) seeds) es))
+               (fst (run (with_dist c d2) (init (with_dist c d2) seeds) es)).
+Proof. exact rank_invariance. Qed.
+Print Assumptions C15_rank_invariance.
+
+(* a rank that is strictly monotone in the real distance satisfies the hypothesis of C15_rank_invariance *)
+Theorem C15_monotone_rank_ok :
+  forall (U : list N) (d rank : N -> N),
+  (forall p q, In p U -> In q U -> (rank p < rank q <-> d p < d q)) ->
+  forall p q, In p U -> In q U -> (d p <? d q) = (rank p <? rank q) /\ (d p =? d q) = (rank p =? rank q).
+Proof. exact monotone_rank_ok. Qed.
+Print Assumptions C15_monotone_rank_ok.
+
+(* ---- the whole QueryEngine: all eight query types, every entry point (coq/C15/Engine.v) ---- *)
+
+(* the dispatch functions of the engine model are exactly the tables that tools/gen_c15_dispatch.py reads
+   from query/mod.rs, message.rs, handle.rs and the three lookup contexts on every check: the variants of
+   QueryType (with their context types), KademliaMessage, QueryAction and Quorum in source order; which
+   message kinds register_response passes on per query type and what it does with the others; the
+   context method each of register_response_failure / register_send_failure / register_send_success /
+   next_peer_action / next_action calls per query type; register_peer_failure = send failure then
+   response failure; the QueryAction variant on_query_succeeded / on_query_failed build per query type; the
+   request each lookup context caches *)
+Theorem C15_dispatch_in_sync :
+  tbl_query_types = V.gen.KadDispatch.query_types /\
+  tbl_message_kinds = V.gen.KadDispatch.message_kinds /\
+  tbl_actions = V.gen.KadDispatch.query_actions /\
+  tbl_quorum = V.gen.KadDispatch.quorum_variants /\
+  tbl_response = V.gen.KadDispatch.response /\
+  tbl_response_failure = V.gen.KadDispatch.register_response_failure /\
+  tbl_send_failure = V.gen.KadDispatch.register_send_failure /\
+  tbl_send_success = V.gen.KadDispatch.register_send_success /\
+  tbl_next_action = V.gen.KadDispatch.next_action /\
+  tbl_peer_action = V.gen.KadDispatch.next_peer_action /\
+  tbl_peer_failure = V.gen.KadDispatch.peer_failure_calls /\
+  tbl_success = V.gen.KadDispatch.success /\
+  tbl_failed = V.gen.KadDispatch.failed /\
+  tbl_request = V.gen.KadDispatch.request_ctor.
+Proof. exact dispatch_in_sync. Qed.
+Print Assumptions C15_dispatch_in_sync.
+
+(* a lookup treats exactly the reply kind that matches its own request as an answer; a message of any
+   other kind is a failure of that peer (so it resolves the request, and the peer has not "answered") *)
+Theorem C15_accepts_lookup :
+  forall t mk,
+  (ctx_of t = CFindNode \/ ctx_of t = CGetRecord \/ ctx_of t = CGetProviders) ->
+  (accepts t mk = true <-> mk = req_of t).
+Proof. exact accepts_lookup. Qed.
+Print Assumptions C15_accepts_lookup.
+
+(* Refinement: after ANY history of engine calls (starts of all eight kinds incl. restarts of a live id,
+   polls in any order, responses of any message kind, failures, send notifications, peer failures, for
+   live, finished and unknown query ids), every lookup entry of the engine is in exactly the state that
+   the single-query model of Model.v reaches from the entry's recorded seeds under the entry's recorded
+   single-query events, it is not finished, and its configuration is the engine's. Hence every theorem
+   above about `run c (init c seeds) es` holds for every lookup inside a shared engine. *)
+Theorem C15_eng_lookup_is_model :
+  forall g evs0 q t a b c seeds es s,
+  xget q (fst (xrun g [] evs0)) = Some (QL t a b c seeds es s) ->
+  s = fst (run c (init c seeds) es) /\ done s = false /\
+  (ctx_of t = CFindNode /\ c_kind c = KFind \/ ctx_of t = CGetRecord /\ c_kind c = KRecord \/
+   ctx_of t = CGetProviders /\ c_kind c = KProviders) /\
+  c_k c = g_k g /\ c_alpha c = g_alpha g /\ c_local c = g_local g /\ c_dist c = g_dist g /\
+  c_timeout c = g_timeout g.
+Proof. exact eng_lookup_is_model. Qed.
+Print Assumptions C15_eng_lookup_is_model.
+
+(* Exactly-one at the engine level, for all eight query types: between two starts of the same id a query
+   yields at most one terminal action (QueryFailed, FindNodeQuerySucceeded, PutRecordToFoundNodes,
+   PutRecordQuerySucceeded, AddProviderToFoundNodes, AddProviderQuerySucceeded, GetRecordQueryDone,
+   GetProvidersQueryDone); an id that is not live yields none; after its terminal action the id is gone *)
+Theorem C15_eng_one_terminal :
+  forall g evs0 q evs,
+  forallb (fun ev => negb (starts q ev)) evs = true ->
+  let e := fst (xrun g [] evs0) in
+  (count_terminal q (snd (xrun g e evs)) <= 1)%nat /\
+  (xget q e = None -> count_terminal q (snd (xrun g e evs)) = 0%nat) /\
+  (count_terminal q (snd (xrun g e evs)) = 1%nat -> xget q (fst (xrun g e evs)) = None).
+Proof. exact eng_one_terminal. Qed.
+Print Assumptions C15_eng_one_terminal.
+
+(* a terminal action comes from a live query and removes it *)
+Theorem C15_eng_terminal_removes :
+  forall g evs0 ev q,
+  let e := fst (xrun g [] evs0) in
+  terminal_about q (snd (xstep g e ev)) = true ->
+  xget q e <> None /\ xget q (fst (xstep g e ev)) = None.
+Proof. exact eng_terminal_removes. Qed.
+Print Assumptions C15_eng_terminal_removes.
+
+(* whatever arrives for a query id the engine does not know (late answers, failures, send notifications,
+   peer failures, next_peer_action, a poll that picks it) changes nothing and yields nothing *)
+Theorem C15_eng_stale_ignored :
+  forall g e q ev,
+  xget q e = None ->
+  match ev with
+  | XResp q' _ _ _ | XFail q' _ | XSendOk q' _ | XSendFail q' _ | XPeerFail q' _ | XPeerAct q' _ => q' = q
+  | XNext _ ch => ch = q + 1
+  | XStart _ _ _ _ _ _ _ => False
+  end ->
+  xstep g e ev = (e, XNone).
+Proof. exact eng_stale_noop. Qed.
+Print Assumptions C15_eng_stale_ignored.
+
+(* frame: a call addressed to another query (a start, a response, a failure, a notification, a poll that
+   picks another query) leaves query q exactly as it was *)
+Theorem C15_eng_frame :
+  forall g e q ev,
+  match ev with
+  | XStart q' _ _ _ _ _ _ | XResp q' _ _ _ | XFail q' _ | XSendOk q' _ | XSendFail q' _ | XPeerFail q' _
+  | XPeerAct q' _ => q' <> q
+  | XNext _ ch => ch <> 0 /\ ch <> q + 1
+  end ->
+  xget q (fst (xstep g e ev)) = xget q e.
+Proof. exact frame. Qed.
+Print Assumptions C15_eng_frame.
+
+(* Resolution is complete: after register_peer_failure(q, p) — whatever the type of q — p is no longer an
+   unresolved request / target of q (this is what Kademlia::disconnect_peer relies on); after
+   register_response with a message of ANY kind, or register_response_failure, p is no longer an unresolved
+   request of a lookup; after register_send_success / register_send_failure p is no longer an unresolved
+   target of a send phase. So no pattern of replies and failures can leave a request hanging. *)
+Theorem C15_eng_resolves :
+  forall g evs0 q p ev,
+  let e := fst (xrun g [] evs0) in
+  match ev with
+  | XPeerFail q' p' => q' = q /\ p' = p
+  | XResp q' p' _ _ | XFail q' p' =>
+      q' = q /\ p' = p /\ match xget q e with Some (QT _ _ _ _) => False | _ => True end
+  | XSendOk q' p' | XSendFail q' p' =>
+      q' = q /\ p' = p /\ match xget q e with Some (QL _ _ _ _ _ _ _) => False | _ => True end
+  | _ => False
+  end ->
+  outstanding (fst (xstep g e ev)) q p = false.
+Proof. exact eng_resolves. Qed.
+Print Assumptions C15_eng_resolves.
+
+(* Hand-over. When the engine reports FindNodeQuerySucceeded / PutRecordToFoundNodes /
+   AddProviderToFoundNodes with peer list l, the action comes from a live entry of the engine; if that is
+   a lookup (FindNode / PutRecord / AddProvider) then l is the verdict of Model.next_action on the recorded
+   single-query history of that entry, and (distances injective, local peer not among the seeds) l
+   satisfies the interface of C15_lookup_interface w.r.t. that history: distinct peers, never the local
+   one, at most k, all contacted and responsive, exactly the k closest responders, not empty for k >= 1;
+   the quorum handed on is the one the query was started with. If it is PutRecordToPeers, l is exactly
+   the list the query was started with. A send phase never produces such an action. *)
+Theorem C15_eng_handover :
+  forall g evs now ch l a b,
+  let e := fst (xrun g [] evs) in
+  let act := snd (xstep g e (XNext now ch)) in
+  (exists q, act = XFindNodeOk q l \/ act = XPutToFound q l a b \/ act = XAddProvToFound q l a b) ->
+  exists q x, xget q e = Some x /\ about act = Some q /\
+    match x with
+    | QL t qtag qn c seeds es s =>
+        c_kind c = KFind /\ c_k c = g_k g /\ c_local c = g_local g /\ c_dist c = g_dist g /\
+        snd (next_action c (fst (run c (init c seeds) es)) now) = AFound l /\
+        (dist_inj c -> ~ In (c_local c) seeds ->
+         let gh := snd (grun c (init c seeds) (ghost0 seeds) es) in
+         NoDup l /\ ~ In (c_local c) l /\ N.of_nat (List.length l) <= c_k c /\
+         (forall p, In p l -> In p (g_answered gh) /\ In p (g_sent gh)) /\
+         kclosest c (c_k c) (g_answered gh) l /\ (1 <= c_k c -> l <> []))
+    | QM qtag qn peers => l = peers /\ a = qtag /\ b = qn
+    | QT _ _ _ _ => False
+    end.
+Proof. exact handover. Qed.
+Print Assumptions C15_eng_handover.
+
+(* The send phases (PutRecordToFoundNodes / AddProviderToFoundNodes, target_peers.rs) terminate with one
+   terminal action for every pattern of notifications: once every target has been reported on — send
+   success, send failure or peer failure, in any order, interleaved with any calls that neither restart
+   nor poll the query — no target is left, the number of acknowledged sends lies between the old count
+   and the old count plus the number of open targets, and the next poll of the query yields
+   PutRecordQuerySucceeded / AddProviderQuerySucceeded exactly when that number reaches the (clamped)
+   quorum, QueryFailed otherwise, and removes the query. *)
+Theorem C15_eng_send_phase_terminates :
+  forall g q evs e t pd sc nd,
+  xget q e = Some (QT t pd sc nd) ->
+  forallb (passive q) evs = true ->
+  (forall p, In p pd -> exists ev, In ev evs /\ resolves_target q p ev = true) ->
+  exists sc', xget q (fst (xrun g e evs)) = Some (QT t [] sc' nd) /\
+    sc <= sc' /\ sc' <= sc + N.of_nat (List.length pd) /\
+    forall now,
+      snd (xstep g (fst (xrun g e evs)) (XNext now (q + 1))) =
+        (if nd <=? sc' then match t with TAddProviderToFoundNodes => XAddProvOk q | _ => XPutOk q end
+         else XFailed q) /\
+      xget q (fst (xstep g (fst (xrun g e evs)) (XNext now (q + 1)))) = None.
+Proof. exact track_terminates. Qed.
+Print Assumptions C15_eng_send_phase_terminates.
+
+(* ... and not earlier: with a target still open a poll yields nothing and changes nothing *)
+Theorem C15_eng_send_phase_waits :
+  forall g e q t p pd sc nd now,
+  xget q e = Some (QT t (p :: pd) sc nd) ->
+  xstep g e (XNext now (q + 1)) = (xupd q (fun _ => QT t (p :: pd) sc nd) e, XNone).
+Proof. exact track_waits. Qed.
+Print Assumptions C15_eng_send_phase_waits.
+
+(* PutRecordToPeers (find_many_nodes.rs): the first poll hands over exactly the given peers with the
+   given quorum and removes the query *)
+Theorem C15_eng_to_peers :
+  forall g e q qtag qn peers now,
+  xget q e = Some (QM qtag qn peers) ->
+  xstep g e (XNext now (q + 1)) = (xdel q e, XPutToFound q peers qtag qn).
+Proof. exact to_peers_immediate. Qed.
+Print Assumptions C15_eng_to_peers.
+
+(* a SendMessage of the engine comes from a live lookup, carries the request kind of that lookup's
+   context (FIND_NODE / GET_VALUE / GET_PROVIDERS), and goes to the peer Model.next_action chose — so the
+   single-query theorems (never local, never twice, gate, closest-first) govern every engine send *)
+Theorem C15_eng_send_kind :
+  forall g evs0 now ch q p mk,
+  let e := fst (xrun g [] evs0) in
+  snd (xstep g e (XNext now ch)) = XSend q p mk ->
+  exists t a b c seeds es s, xget q e = Some (QL t a b c seeds es s) /\ mk = req_of t /\
+    snd (next_action c s now) = ASend p.
+Proof. exact eng_send_kind. Qed.
+Print Assumptions C15_eng_send_kind.
+
+(* never local, never twice — at the engine level: a SendMessage for query q goes to a peer that is not the
+   local peer and that the recorded history of q has not been sent to; after the step the recorded history
+   of q has exactly this one send more. By induction the sends of a query over its whole life are pairwise
+   distinct and never the local peer, for every interleaving with other queries and every polling order. *)
+Theorem C15_eng_send_fresh :
+  forall g evs0 now ch q p mk,
+  let e := fst (xrun g [] evs0) in
+  snd (xstep g e (XNext now ch)) = XSend q p mk ->
+  exists t a b c seeds es s,
+    xget q e = Some (QL t a b c seeds es s) /\ mk = req_of t /\
+    (dist_inj c -> ~ In (c_local c) seeds ->
+     p <> g_local g /\ ~ In p (sends (snd (run c (init c seeds) es)))) /\
+    exists s', xget q (fst (xstep g e (XNext now ch))) = Some (QL t a b c seeds (es ++ [ENext now]) s') /\
+      sends (snd (run c (init c seeds) (es ++ [ENext now]))) = sends (snd (run c (init c seeds) es)) ++ [p].
+Proof. exact eng_send_fresh. Qed.
+Print Assumptions C15_eng_send_fresh.
+
+(* non-vacuity of the engine model: a PUT_VALUE (quorum N(2), k = 2) over three peers — lookup, hand-over
+   of the two responders, send phase with one acknowledged and one failed send, QueryFailed; meanwhile a
+   PutRecordToPeers query with the same id space is handed over at its first poll *)
+Example C15_engine_nonvacuous :
+  let g := mkGc 2 2 5 0 (fun p => p) in
+  let evs := [XStart 7 TPutRecord 2 2 0 [3; 1] []; XNext 0 8; XNext 0 8;
+              XResp 7 1 MKFindNode (mkReply [2] None []); XResp 7 3 MKGetRecord (mkReply [] None []);
+              XNext 1 8; XPeerFail 7 2; XNext 2 8;
+              XStart 7 TPutRecordToFoundNodes 2 2 0 [1] []; XStart 9 TPutRecordToPeers 1 0 0 [5; 6] [];
+              XNext 3 10; XSendOk 7 1; XNext 4 0] in
+  snd (xrun g [] evs) =
+    [XNone; XSend 7 1 MKFindNode; XSend 7 3 MKFindNode; XNone; XNone; XSend 7 2 MKFindNode; XNone;
+     XPutToFound 7 [1] 2 2; XNone; XNone; XPutToFound 9 [5; 6] 1 0; XNone; XPutOk 7].
+Proof. vm_compute. reflexivity. Qed.
 
 (* non-vacuity: a FIND_NODE lookup (k = 2, alpha = 2) over five peers that learns closer peers,
    has one failure, and succeeds with the two closest responders *)
